@@ -150,7 +150,7 @@ def run(tier):
                 "exhaustive": True})
     c.write_evidence(PROP, tier, "model_checking", cov, time.time() - t0,
                      ["value tokens: URL, e-mail, first-character and existing-directory predicates are tables over the tokens in use (spec/Config.tla); permission strings and glob patterns are computed structurally",
-                      "one fixed project (three controllers in three files of two packages); the CLI runs with an empty umask so that file modes can be compared literally",
+                      "one fixed project (three controllers in three files of two packages); the CLI runs under umask 022 and file modes are compared literally with the configured permission string",
                       "a message 'names' a field when it contains the Go field name, the dotted path or a distinctive JSON key as a word",
                       "cross-references that no declared constraint covers (default security naming an undeclared scheme, apiKey scheme without name/in) are outside the explored space",
                       "single-edit, optional-subset and matrix spaces are exhaustive; double edits are sampled in the thorough tier"], len(violations))
